@@ -194,11 +194,15 @@ def check_instance(rec, ctx, e, key, shape, rng):
                 rec.note(f"folded_not_printable:{name}")
                 rec.stratum("folded_not_printable", name)
                 continue
-            law("folded_code", f"cse={cse}", exprs.same(got, ref), f"lambdify(folded, cse={cse}) != lambdify(doit())",
+            ok_ = exprs.same(got, ref) or exprs.same_up_to_conditioning(
+                lambda e_, c_=cse: exprs.numeric(e, e_, unfolded=False, cse=c_), lambda e_: exprs.numeric(e, e_, unfolded=True, cse=True), env, rng)
+            law("folded_code", f"cse={cse}", ok_, f"lambdify(folded, cse={cse}) != lambdify(doit())",
                 {"folded": got, "unfolded": ref})
         try:
             got = exprs.numeric(e, env, unfolded=True, cse=False)
-            law("folded_code", "unfolded cse off", exprs.same(got, ref), "lambdify(doit(), cse=False) != lambdify(doit(), cse=True)")
+            ok_ = exprs.same(got, ref) or exprs.same_up_to_conditioning(
+                lambda e_: exprs.numeric(e, e_, unfolded=True, cse=False), lambda e_: exprs.numeric(e, e_, unfolded=True, cse=True), env, rng)
+            law("folded_code", "unfolded cse off", ok_, "lambdify(doit(), cse=False) != lambdify(doit(), cse=True)")
         except Exception as exc:  # noqa: BLE001
             law("folded_code", "unfolded cse off", False, f"lambdify(doit(), cse=False) raised {type(exc).__name__}: {exc}")
 
